@@ -194,6 +194,13 @@ Proof.
   - destruct Hst as (-> & ->). reflexivity.
 Qed.
 
+Lemma Inv_step' g h c g' o : Inv g h -> do_call g c = (g', o) ->
+  (o = Done -> Inv g' (h ++ [c])) /\ (o <> Done -> g' = g).
+Proof.
+  intros HI Hd. pose proof (Inv_step g h c HI) as Hs. rewrite Hd in Hs.
+  destruct o; split; intros; try congruence; auto.
+Qed.
+
 Lemma do_call_outcome g c : snd (do_call g c) = Done \/ snd (do_call g c) = EValue.
 Proof.
   unfold do_call. destruct (add_interaction g (c_u c) (c_v c) (Some (c_t c)) (c_e c)) as [g' o] eqn:Hs.
